@@ -1333,8 +1333,17 @@ class _ContractChoice(object):
                 return r
         return NotImplemented
 
+EXTRA_MODELS = {}       # id(callable) -> model(I, *args, **kwargs), registered by contract modules
+
+def register_model(target, fn):
+    EXTRA_MODELS[id(target)] = fn
+    _KEEP.append(target)
+
+_KEEP = []
+
 def make_config(repo_root, verif_root, unit=None, extra_models=None):
     cfg = Config([repo_root], [verif_root])
+    cfg.models.update(EXTRA_MODELS)
     for c in REGISTRY.values():
         try:
             f = c.func
